@@ -633,6 +633,9 @@ func (m *InPortField) MarshalBinary() (data []byte, err error) {
 	return
 }
 func (m *InPortField) UnmarshalBinary(data []byte) error {
+	if len(data) < int(m.Len()) {
+		return errors.New("the []byte is too short to unmarshal a full InPortField message")
+	}
 	m.InPort = binary.BigEndian.Uint32(data)
 	return nil
 }
@@ -667,6 +670,9 @@ func (m *EthDstField) MarshalBinary() (data []byte, err error) {
 }
 
 func (m *EthDstField) UnmarshalBinary(data []byte) error {
+	if len(data) < int(m.Len()) {
+		return errors.New("the []byte is too short to unmarshal a full EthDstField message")
+	}
 	m.EthDst = make([]byte, m.Len())
 	copy(m.EthDst, data)
 	return nil
@@ -711,6 +717,9 @@ func (m *EthSrcField) MarshalBinary() (data []byte, err error) {
 }
 
 func (m *EthSrcField) UnmarshalBinary(data []byte) error {
+	if len(data) < int(m.Len()) {
+		return errors.New("the []byte is too short to unmarshal a full EthSrcField message")
+	}
 	m.EthSrc = make([]byte, m.Len())
 	copy(m.EthSrc, data)
 	return nil
@@ -755,6 +764,9 @@ func (m *EthTypeField) MarshalBinary() (data []byte, err error) {
 	return
 }
 func (m *EthTypeField) UnmarshalBinary(data []byte) error {
+	if len(data) < int(m.Len()) {
+		return errors.New("the []byte is too short to unmarshal a full EthTypeField message")
+	}
 	m.EthType = binary.BigEndian.Uint16(data)
 	return nil
 }
@@ -792,6 +804,9 @@ func (m *VlanIdField) MarshalBinary() (data []byte, err error) {
 	return
 }
 func (m *VlanIdField) UnmarshalBinary(data []byte) error {
+	if len(data) < int(m.Len()) {
+		return errors.New("the []byte is too short to unmarshal a full VlanIdField message")
+	}
 	m.VlanId = binary.BigEndian.Uint16(data)
 	return nil
 }
@@ -834,6 +849,9 @@ func (m *MplsLabelField) MarshalBinary() (data []byte, err error) {
 	return
 }
 func (m *MplsLabelField) UnmarshalBinary(data []byte) error {
+	if len(data) < int(m.Len()) {
+		return errors.New("the []byte is too short to unmarshal a full MplsLabelField message")
+	}
 	m.MplsLabel = binary.BigEndian.Uint32(data)
 	return nil
 }
@@ -868,6 +886,9 @@ func (m *MplsBosField) MarshalBinary() (data []byte, err error) {
 	return
 }
 func (m *MplsBosField) UnmarshalBinary(data []byte) error {
+	if len(data) < int(m.Len()) {
+		return errors.New("the []byte is too short to unmarshal a full MplsBosField message")
+	}
 	m.MplsBos = data[0]
 	return nil
 }
@@ -901,6 +922,9 @@ func (m *Ipv4SrcField) MarshalBinary() (data []byte, err error) {
 }
 
 func (m *Ipv4SrcField) UnmarshalBinary(data []byte) error {
+	if len(data) < int(m.Len()) {
+		return errors.New("the []byte is too short to unmarshal a full Ipv4SrcField message")
+	}
 	m.Ipv4Src = net.IPv4(data[0], data[1], data[2], data[3])
 	return nil
 }
@@ -944,6 +968,9 @@ func (m *Ipv4DstField) MarshalBinary() (data []byte, err error) {
 }
 
 func (m *Ipv4DstField) UnmarshalBinary(data []byte) error {
+	if len(data) < int(m.Len()) {
+		return errors.New("the []byte is too short to unmarshal a full Ipv4DstField message")
+	}
 	m.Ipv4Dst = net.IPv4(data[0], data[1], data[2], data[3])
 	return nil
 }
@@ -987,6 +1014,9 @@ func (m *Ipv6SrcField) MarshalBinary() (data []byte, err error) {
 }
 
 func (m *Ipv6SrcField) UnmarshalBinary(data []byte) error {
+	if len(data) < int(m.Len()) {
+		return errors.New("the []byte is too short to unmarshal a full Ipv6SrcField message")
+	}
 	m.Ipv6Src = make([]byte, 16)
 	copy(m.Ipv6Src, data)
 	return nil
@@ -1031,6 +1061,9 @@ func (m *Ipv6DstField) MarshalBinary() (data []byte, err error) {
 }
 
 func (m *Ipv6DstField) UnmarshalBinary(data []byte) error {
+	if len(data) < int(m.Len()) {
+		return errors.New("the []byte is too short to unmarshal a full Ipv6DstField message")
+	}
 	m.Ipv6Dst = make([]byte, 16)
 	copy(m.Ipv6Dst, data)
 	return nil
@@ -1076,6 +1109,9 @@ func (m *IPv6FlowLabelField) MarshalBinary() (data []byte, err error) {
 }
 
 func (m *IPv6FlowLabelField) UnmarshalBinary(data []byte) error {
+	if len(data) < int(m.Len()) {
+		return errors.New("the []byte is too short to unmarshal a full IPv6FlowLabelField message")
+	}
 	m.FlowLabel = binary.BigEndian.Uint32(data)
 	return nil
 }
@@ -1118,6 +1154,9 @@ func (m *IpProtoField) MarshalBinary() (data []byte, err error) {
 }
 
 func (m *IpProtoField) UnmarshalBinary(data []byte) error {
+	if len(data) < int(m.Len()) {
+		return errors.New("the []byte is too short to unmarshal a full IpProtoField message")
+	}
 	m.protocol = data[0]
 	return nil
 }
@@ -1152,6 +1191,9 @@ func (m *IpDscpField) MarshalBinary() (data []byte, err error) {
 }
 
 func (m *IpDscpField) UnmarshalBinary(data []byte) error {
+	if len(data) < int(m.Len()) {
+		return errors.New("the []byte is too short to unmarshal a full IpDscpField message")
+	}
 	m.dscp = data[0]
 	return nil
 }
@@ -1186,6 +1228,9 @@ func (m *TunnelIdField) MarshalBinary() (data []byte, err error) {
 	return
 }
 func (m *TunnelIdField) UnmarshalBinary(data []byte) error {
+	if len(data) < int(m.Len()) {
+		return errors.New("the []byte is too short to unmarshal a full TunnelIdField message")
+	}
 	m.TunnelId = binary.BigEndian.Uint64(data)
 	return nil
 }
@@ -1220,6 +1265,9 @@ func (m *MetadataField) MarshalBinary() (data []byte, err error) {
 	return
 }
 func (m *MetadataField) UnmarshalBinary(data []byte) error {
+	if len(data) < int(m.Len()) {
+		return errors.New("the []byte is too short to unmarshal a full MetadataField message")
+	}
 	m.Metadata = binary.BigEndian.Uint64(data)
 	return nil
 }
@@ -1263,6 +1311,9 @@ func (m *PortField) MarshalBinary() (data []byte, err error) {
 }
 
 func (m *PortField) UnmarshalBinary(data []byte) error {
+	if len(data) < int(m.Len()) {
+		return errors.New("the []byte is too short to unmarshal a full PortField message")
+	}
 	m.port = binary.BigEndian.Uint16(data)
 	return nil
 }
@@ -1343,6 +1394,9 @@ func (m *TcpFlagsField) MarshalBinary() (data []byte, err error) {
 	return
 }
 func (m *TcpFlagsField) UnmarshalBinary(data []byte) error {
+	if len(data) < int(m.Len()) {
+		return errors.New("the []byte is too short to unmarshal a full TcpFlagsField message")
+	}
 	m.TcpFlags = binary.BigEndian.Uint16(data)
 	return nil
 }
@@ -1386,6 +1440,9 @@ func (m *ArpOperField) MarshalBinary() (data []byte, err error) {
 	return
 }
 func (m *ArpOperField) UnmarshalBinary(data []byte) error {
+	if len(data) < int(m.Len()) {
+		return errors.New("the []byte is too short to unmarshal a full ArpOperField message")
+	}
 	m.ArpOper = binary.BigEndian.Uint16(data)
 	return nil
 }
@@ -1420,6 +1477,9 @@ func (m *TunnelIpv4SrcField) MarshalBinary() (data []byte, err error) {
 }
 
 func (m *TunnelIpv4SrcField) UnmarshalBinary(data []byte) error {
+	if len(data) < int(m.Len()) {
+		return errors.New("the []byte is too short to unmarshal a full TunnelIpv4SrcField message")
+	}
 	m.TunnelIpv4Src = net.IPv4(data[0], data[1], data[2], data[3])
 	return nil
 }
@@ -1463,6 +1523,9 @@ func (m *TunnelIpv4DstField) MarshalBinary() (data []byte, err error) {
 }
 
 func (m *TunnelIpv4DstField) UnmarshalBinary(data []byte) error {
+	if len(data) < int(m.Len()) {
+		return errors.New("the []byte is too short to unmarshal a full TunnelIpv4DstField message")
+	}
 	m.TunnelIpv4Dst = net.IPv4(data[0], data[1], data[2], data[3])
 	return nil
 }
@@ -1539,6 +1602,7 @@ func (m *ArpXHaField) UnmarshalBinary(data []byte) error {
 	if len(data) < int(m.Len()) {
 		return errors.New("The byte array has wrong size to unmarshal ArpXHaField message")
 	}
+	m.ArpHa = make([]byte, 6)
 	copy(m.ArpHa, data[:6])
 	return nil
 }
@@ -1633,6 +1697,9 @@ func (m *ActsetOutputField) MarshalBinary() (data []byte, err error) {
 	return
 }
 func (m *ActsetOutputField) UnmarshalBinary(data []byte) error {
+	if len(data) < int(m.Len()) {
+		return errors.New("the []byte is too short to unmarshal a full ActsetOutputField message")
+	}
 	m.OutputPort = binary.BigEndian.Uint32(data)
 	return nil
 }
